@@ -6,7 +6,7 @@
 (***************************************************************************)
 EXTENDS Integers, Sequences, FiniteSets, TLC, Hist, StreamLife, E2EBase
 
-SOps == {"write", "finish", "reset", "stopped"}
+SOps == {"write", "finish", "reset", "stopped", "cut", "uncut"}
 ROps == {"read", "stop"}
 
 OpsOf(h) ==
@@ -31,7 +31,7 @@ AbsRes(e) ==
     [] e.op \in {"finish", "stopped"} ->
          IF e.res.k = "err" THEN ErrRes(e.res.err) ELSE R(e.res.k, NoCode, 0)
     [] e.op = "reset" -> R(e.res, NoCode, 0)
-    [] e.op \in {"stop", "close"} -> R(e.res, NoCode, 0)
+    [] e.op \in {"stop", "close", "cut", "uncut"} -> R(e.res, NoCode, 0)
     [] e.op = "read" ->
          IF e.end.k = "err" THEN R(e.end.err.k, IF Has(e.end.err, "code") THEN e.end.err.code ELSE NoCode, e.len)
          ELSE R(e.end.k, NoCode, e.len)
